@@ -434,6 +434,12 @@ TIES = {
     'SemMockFunc': dict(gen=['MockFunc', 'Find', 'ReportMismatchFree', 'ReportMismatchMember', 'RunActions'], props=['C01', 'C02'],
                         theorems=['mock_func_sem'],
                         cxx='the whole call path: mock_func read with find, report_mismatch and run_actions (mock.hpp), meaning of the composed trace'),
+    'SemExpect': dict(gen=['RuntimeTimes', 'SetLimits', 'AddLast', 'HookLast'], props=['C03', 'C05', 'C02'],
+                      theorems=['register_pendingOf', 'expect_sem'],
+                      cxx='the expectation statement: runtime_times::action / set_limits, sequence_matcher ctor (add_last), make_expectation (hook_last), meaning'),
+    'SemKill': dict(gen=['ExpectationsDtor', 'ExpectationsDtorNonMovable', 'Decommission', 'MockDestroyed', 'ReportMissed'], props=['C04'],
+                    theorems=['expectations_dtor_order', 'expectations_dtor_sem'],
+                    cxx='~expectations (both specialisations): active list decommissioned before the saturated list'),
     'Ring': dict(props=['C14'], gen=['RingUnlink', 'RingElemDtor', 'RingMoveAssign', 'RingPushFront', 'RingPushBack', 'RingBegin', 'RingEnd',
                                     'RingIterIncr', 'RingIsLinked', 'RingListDtor'],
                  theorems=['ring_unlink_tie', 'ring_elem_dtor_tie', 'ring_move_assign_tie', 'ring_push_front_tie', 'ring_push_back_tie',
